@@ -451,10 +451,23 @@ func runStoreHistory(r *rand.Rand, o storeHistOpts, t *Trace) *Case {
 			if cfg.ht && (mode >= 5 || !cfg.hv) && r.Intn(2) == 0 {
 				tqs = []string{bmText(r)}
 			}
+			var gs []*comet.FilterGroup
 			if cfg.hm && r.Intn(4) == 0 {
 				fs = []comet.Filter{rndFilter(r)}
 			}
-			if vq == nil && len(tqs) == 0 && len(fs) == 0 {
+			if cfg.hm && r.Intn(6) == 0 {
+				// filter groups, also as the ONLY criterion of the search
+				logic := comet.OR
+				if r.Intn(3) == 0 {
+					logic = comet.AND
+				}
+				gs = []*comet.FilterGroup{{Logic: logic, Filters: []comet.Filter{rndFilter(r), rndFilter(r)}}}
+				if r.Intn(2) == 0 {
+					vq, tqs, fs = nil, nil, nil
+				}
+				t.Stat("store.search_with_filter_groups")
+			}
+			if vq == nil && len(tqs) == 0 && len(fs) == 0 && len(gs) == 0 {
 				if cfg.hv {
 					vq = histVec(r, cfg.p.dim, style)
 				} else if cfg.ht {
@@ -484,6 +497,9 @@ func runStoreHistory(r *rand.Rand, o storeHistOpts, t *Trace) *Case {
 			}
 			if len(fs) > 0 {
 				s = s.WithMetadata(fs...)
+			}
+			if len(gs) > 0 {
+				s = s.WithMetadataGroups(gs...)
 			}
 			lnT := map[uint64]uint64{}
 			if cfg.ht && len(tqs) > 0 {
@@ -520,7 +536,13 @@ func runStoreHistory(r *rand.Rand, o storeHistOpts, t *Trace) *Case {
 				for _, f := range fs {
 					encFilter(c, f)
 				}
-				c.N(0) // groups
+				c.N(len(gs))
+				for _, g := range gs {
+					c.B(g.Logic == comet.AND).N(len(g.Filters))
+					for _, f := range g.Filters {
+						encFilter(c, f)
+					}
+				}
 				c.N(k).F32(0).N(0).N(-1).N(nprobes).N(fk).F64(1).F64(1).F64(60)
 				encLn(c, lnT)
 				c.N(code).N(len(res))
